@@ -427,6 +427,18 @@ def stale_applications(h: History) -> list[dict[str, Any]]:
         if any(c < a < r["seq"] for a in rearm.get(sid, []) + rearm.get(parent, [])):
             out.append({"handler": handler, "kind": k, "old": r["old"], "new": r["new"], "seq": r["seq"],
                         "stage": h.key_of_stage(sid)})
+    # a task *executed* under a message of an earlier iteration (a delayed RunTask retry of iteration i delivered
+    # while the task is RUNNING again in iteration i+1): no status changes, but user code runs
+    for e in h.ledger:
+        mid = str(e.get("msg") or "")
+        if mid not in created:
+            continue
+        sid = e["stage_id"]
+        parent = (h.stage_info.get(sid) or {}).get("parent") or ""
+        if any(created[mid] < a <= e["audit_seq"] for a in rearm.get(sid, []) + rearm.get(parent, [])):
+            out.append({"handler": "RunTask", "kind": "execution", "old": "-", "new": e["key"], "seq": e["audit_seq"],
+                        "stage": h.key_of_stage(sid)})
+    out.sort(key=lambda x: x["seq"])
     return out
 
 
